@@ -132,3 +132,94 @@ Example routes :
   route conv_ok asciiL asciiN root1 GET (sv [47;97;97;58;118]) = Err ENotFound /\
   (exists m, route conv_ok asciiL asciiN root1 (sv [80;85;84]) (sv [47;83;47;66]) = Ok (m, []) /\ m_id m = mB).
 Proof. repeat split; try (eexists; split; vm_compute; reflexivity); try (vm_compute; reflexivity). Qed.
+
+(* ---------- routing composed with conversion (Proofs/BoundFieldProofs.v) ---------- *)
+From Larking Require Import Base.B64 Model.Schema Model.Params Model.Transcode Spec.Json3 Proofs.ParamsProofs Proofs.ParamsConvProofs Proofs.BoundFieldProofs.
+
+(* C01, last clause.  For every schema sch, every assignment req of request message types to method
+   ids, and every trie with the registration invariant built with the schema's resolution oracle:
+   if the request path p is routed to the binding m with captures caps (by a router using ANY
+   conversion oracle okconv), then
+   - a binding b registered for method m_id m covers the tokens of the normalised path with exactly
+     these captures, and the path is b's edge sequence with every variable replaced by "/" and its
+     capture (rev caps is template order);
+   - every named variable resolves (Params.field_path) in the method's request message, and okconv
+     accepted its capture;
+   - if okconv implies the schema's convertibility (okconv_of: Params.parse_param succeeds), the
+     conversion serveHTTP performs on the path parameters succeeds;
+   - whenever that conversion gives ps and params.set ps succeeds on any message M0, then for EVERY
+     named variable i, with names ns and capture c: ns resolves to fds, c converts to v, (fds, v) is
+     among the parameters, c is a proto3-JSON text of v (bool, the integer kinds, string, enum,
+     bytes), and -- if the last field is singular and the variables before i in the template do not
+     write into fds (earlier_leave; nothing to ask for the first named variable) -- the message has
+     at and under the steps of fds exactly the image of v. *)
+Theorem C01_bound_field_is_converted_capture :
+  forall (ofloat : bool -> bytes -> option N) (owkt : wkt -> bool -> bytes -> option subtree)
+         (sch : schema) (req : str -> option nat) (isLetter isNumber : N -> bool),
+  Sane isLetter isNumber ->
+  forall okconv L root verb p m caps,
+  TrieProofs.Inv isLetter isNumber (resolves_of sch req) L root ->
+  Match.route okconv isLetter isNumber root verb p = Ok (m, caps) ->
+  exists b es toks,
+    In (m_id m, b) L /\ covers_verb (b_verb b) verb /\ m_body m = b_body b /\
+    TrieProofs.compiled isLetter isNumber (resolves_of sch req) (m_id m) b es (m_vars m) /\
+    lex_path isLetter isNumber (normalise p) = Ok toks /\ MatchEdges es toks caps /\
+    fill es (rev caps) = Some (normalise p) /\
+    length caps = length (m_vars m) /\
+    (forall i ns, nth_error (m_vars m) i = Some ns -> ns <> [] ->
+       exists rm fds, req (m_id m) = Some rm /\ field_path sch (req_fields sch rm) ns = Some fds /\ fds <> []) /\
+    (forall i ns c, nth_error (m_vars m) i = Some ns -> ns <> [] -> nth_error (rev caps) i = Some c ->
+       okconv ns c = true) /\
+    forall rm, req (m_id m) = Some rm ->
+      ((forall ns c, okconv ns c = true -> okconv_of ofloat owkt sch rm ns c = true) ->
+         exists ps, convert_params ofloat owkt sch rm (Match.path_params (m, caps)) = Ok ps) /\
+      forall ps M0 M', convert_params ofloat owkt sch rm (Match.path_params (m, caps)) = Ok ps -> params_set ps M0 = Ok M' ->
+      forall i ns c, nth_error (m_vars m) i = Some ns -> ns <> [] -> nth_error (rev caps) i = Some c ->
+      exists fds v,
+        field_path sch (req_fields sch rm) ns = Some fds /\ fds <> [] /\
+        parse_param ofloat owkt sch fds c = Ok v /\ In (fds, v) ps /\
+        ((exact_kind (f_kind (snd (last_step fds))) = true \/ f_kind (snd (last_step fds)) = KBytes) ->
+           json3_text sch (f_kind (snd (last_step fds))) v c) /\
+        (singular_last fds -> earlier_leave sch rm (m_vars m) i fds ->
+           forall rel, Schema.lookup (steps_path fds ++ rel) M' = Schema.lookup rel (field_image (snd (last_step fds)) v)).
+Proof. exact bound_fields_are_converted_captures. Qed.
+Print Assumptions C01_bound_field_is_converted_capture.
+
+(* the same without any hypothesis about the other variables: a variable preceded by bare wildcards
+   only (the variable of a one-variable template, the first named variable of any template) *)
+Theorem C01_bound_field_first_variable :
+  forall (ofloat : bool -> bytes -> option N) (owkt : wkt -> bool -> bytes -> option subtree)
+         (sch : schema) (req : str -> option nat) (isLetter isNumber : N -> bool),
+  Sane isLetter isNumber ->
+  forall okconv L root verb p m caps,
+  TrieProofs.Inv isLetter isNumber (resolves_of sch req) L root ->
+  Match.route okconv isLetter isNumber root verb p = Ok (m, caps) ->
+  forall rm ps M0 M', req (m_id m) = Some rm ->
+  convert_params ofloat owkt sch rm (Match.path_params (m, caps)) = Ok ps -> params_set ps M0 = Ok M' ->
+  forall i ns c, nth_error (m_vars m) i = Some ns -> ns <> [] -> nth_error (rev caps) i = Some c ->
+  (forall j nsj, (j < i)%nat -> nth_error (m_vars m) j = Some nsj -> nsj = []) ->
+  exists fds v,
+    field_path sch (req_fields sch rm) ns = Some fds /\ parse_param ofloat owkt sch fds c = Ok v /\
+    ((exact_kind (f_kind (snd (last_step fds))) = true \/ f_kind (snd (last_step fds)) = KBytes) ->
+       json3_text sch (f_kind (snd (last_step fds))) v c) /\
+    (singular_last fds ->
+       forall rel, Schema.lookup (steps_path fds ++ rel) M' = Schema.lookup rel (field_image (snd (last_step fds)) v)).
+Proof. exact bound_fields_are_converted_captures_partial. Qed.
+Print Assumptions C01_bound_field_first_variable.
+
+(* for the kinds with a grammar the conversion is exact in both directions: the capture converts to
+   v iff it is a proto3-JSON text of v *)
+Theorem C01_capture_conversion_exact :
+  forall (ofloat : bool -> bytes -> option N) (owkt : wkt -> bool -> bytes -> option subtree) sch fds c v,
+  fds <> [] -> exact_kind (f_kind (snd (last_step fds))) = true ->
+  (parse_param ofloat owkt sch fds c = Ok v <-> json3_text sch (f_kind (snd (last_step fds))) v c).
+Proof. exact converted_iff_json3. Qed.
+Print Assumptions C01_capture_conversion_exact.
+
+(* what "do not write into" means for two field paths *)
+Theorem C01_untouched_meaning : forall fds q,
+  untouched fds q = true <->
+  (fds = [] \/ exists A st B n q', fds = A ++ st :: B /\ q = steps_path A ++ n :: q' /\
+     n <> step_num st /\ ~ In n (sibs (fst st) (snd st))).
+Proof. exact untouched_iff_diverge. Qed.
+Print Assumptions C01_untouched_meaning.
